@@ -50,8 +50,8 @@ SPEC = {
     "C14": ["samply/src/shared/stack_depth_limiting_frame_iter.rs", "samply/src/shared/process_sample_data.rs", "samply/src/shared/stack_converter.rs"],
     "C15": ["samply-quota-manager/src/file_inventory.rs", "samply-quota-manager/src/quota_manager.rs"],
     "C16": ["wholesym/src/file_creation.rs", "wholesym/src/breakpad.rs::write_symindex", "wholesym/src/downloader.rs::download_to_file"],
-    "C18": ["samply/src/server.rs::generate_token,symbolication_service,start_server"],
-    "C19": ["fxprof-processed-profile/src/library_info.rs", "samply/src/profile_json_preparse.rs", "wholesym/src/helper.rs::add_known_lib,fill_in_library_info_details",
+    "C18": ["samply/src/server.rs::generate_token,symbolication_service,start_server,run_server"],
+    "C19": ["fxprof-processed-profile/src/library_info.rs", "samply/src/profile_json_preparse.rs", "wholesym/src/helper.rs::add_known_lib,fill_in_library_info_details,check_file_exists,load_file_impl",
             "samply-symbols/src/shared.rs::from_str,fmt", "samply/src/linux_shared/converter.rs::add_module_to_process,library_info_with_object", "samply/src/shared/utils.rs::open_file_with_fallback",
             "samply-symbols/src/debugid_util.rs", "samply/src/shared/save_profile.rs"],
     "C20": ["samply-api/src/asm/mod.rs", "samply-api/src/asm/request_json.rs", "samply-api/src/asm/response_json.rs", "samply-symbols/src/binary_image.rs::read_bytes_at_relative_address"],
